@@ -14,6 +14,10 @@ use serde::{Deserialize, Serialize};
 #[derive(Clone, Debug, Default, PartialEq, Eq, Serialize, Deserialize)]
 pub struct Schedule {
     pub preempt_at: Vec<(u32, u8)>,
+    /// ... and at the k-th time (counted over all threads) the named schedule point is reached:
+    /// (point name, k, salt). Steers preemptions to the places where threads actually meet.
+    #[serde(default)]
+    pub at_point: Vec<(String, u32, u8)>,
 }
 
 #[derive(Clone, Debug, PartialEq, Eq)]
@@ -93,6 +97,10 @@ impl Ctl {
 
     /// pick who runs next; `me` is the thread making the decision (it is parked or finished)
     fn choose(st: &mut St, me: usize) {
+        Self::choose_at(st, me, None)
+    }
+
+    fn choose_at(st: &mut St, me: usize, at: Option<(&'static str, u64)>) {
         st.last_progress = Instant::now();
         let n = st.status.len();
         let elig: Vec<usize> = (0..n).filter(|i| Self::eligible(st, *i)).collect();
@@ -109,9 +117,11 @@ impl Ctl {
         let others: Vec<usize> = elig.iter().copied().filter(|i| *i != me).collect();
         let mut pick = if me_ok { me } else if !others.is_empty() { others[0] } else { me };
         if st.decision < st.step_cap {
-            if let Some((_, salt)) = st.schedule.preempt_at.iter().find(|(d, _)| *d == idx) {
+            let by_index = st.schedule.preempt_at.iter().find(|(d, _)| *d == idx).map(|(_, salt)| *salt);
+            let by_name = at.and_then(|(name, nth)| st.schedule.at_point.iter().find(|(n, k, _)| n == name && u64::from(*k) + 1 == nth).map(|(_, _, salt)| *salt));
+            if let Some(salt) = by_index.or(by_name) {
                 if !others.is_empty() {
-                    pick = others[*salt as usize % others.len()];
+                    pick = others[salt as usize % others.len()];
                     if me_ok {
                         st.preemptions_done += 1;
                     }
@@ -199,6 +209,8 @@ impl Ctl {
     }
 }
 
+const MIRRORED_LOCKS_ARE_SEAMS: bool = true;
+
 impl crux_core::verif::Controller for Ctl {
     fn point(&self, name: &'static str) {
         let Some(me) = ME.with(Cell::get) else { return };
@@ -207,17 +219,24 @@ impl crux_core::verif::Controller for Ctl {
             st.trace.push((me as u8, name));
         }
         *st.point_counts.entry(name).or_insert(0) += 1;
+        let nth = st.point_counts[name];
         st.status[me] = Status::AtPoint(name);
-        if name == "exec.unavailable" || name == "rwlock.contended" {
+        if name == "exec.unavailable" || name == "rwlock.contended" || name == "mutex.contended" {
             // spin-wait on another thread: somebody else has to run before this one continues
             st.yielding[me] = true;
             st.yield_events += 1;
         }
-        Self::choose(&mut st, me);
+        Self::choose_at(&mut st, me, Some((name, nth)));
         self.park(me, st);
     }
 
     fn lock_enter(&self, name: &'static str, addr: usize) {
+        // The locks that used to be mirrored through these announcements are seams themselves now
+        // (crux_core::verif::Mutex / RwLock): a contended acquisition is a forced yield at the lock.
+        // Waiting here as well would keep a thread away from a lock it could try.
+        if MIRRORED_LOCKS_ARE_SEAMS {
+            return;
+        }
         let Some(me) = ME.with(Cell::get) else { return };
         let mut st = self.st.lock().unwrap();
         loop {
@@ -242,6 +261,9 @@ impl crux_core::verif::Controller for Ctl {
     }
 
     fn lock_exit(&self, name: &'static str, addr: usize) {
+        if MIRRORED_LOCKS_ARE_SEAMS {
+            return;
+        }
         let Some(me) = ME.with(Cell::get) else { return };
         let mut st = self.st.lock().unwrap();
         if st.locks.get(&(name, addr)) == Some(&me) {
